@@ -30,12 +30,49 @@ pub struct Case {
     pub calls: Vec<Call>,
 }
 
+/// Mostly plain ASCII; one text in four carries NULs the way callers pass them
+/// (a fixed-size zero-padded buffer, an interior NUL, bytes behind a NUL) or
+/// multi-byte characters.
 fn text(key: u32, n: usize) -> String {
-    mb2_model::encode::ascii_markers(key as u64, n, 3).into_iter().map(|b| b as char).collect()
+    let mut t: String = mb2_model::encode::ascii_markers(key as u64, n, 3).into_iter().map(|b| b as char).collect();
+    match (key >> 5) & 15 {
+        1 => t.push_str("\0\0\0"),
+        2 => {
+            let at = t.len() / 2;
+            t.insert(at, '\0');
+        }
+        3 => t.push_str("\0tail"),
+        4 => t = String::from_utf8(mb2_model::encode::utf8_markers(key as u64, n, 3)).unwrap_or(t),
+        _ => {}
+    }
+    t
 }
 
+/// Markers, or (one blob in four) content as firmware writes it / a uniform fill.
 fn blob(key: u32, n: usize) -> Vec<u8> {
+    if (key >> 5) & 3 == 1 {
+        return mb2_model::realistic::blob((key >> 7) as u8, key as u64, n);
+    }
     (0..n).map(|i| marker(key as u64, i)).collect()
+}
+
+/// A memory map as a PC BIOS reports it (E820 style): conventional memory below
+/// 640 KiB, the reserved areas up to 1 MiB, extended memory from 1 MiB, ACPI areas.
+fn e820(key: u32) -> Vec<m::MemoryArea> {
+    let ext = 0x0100_0000u64 * (1 + (key as u64 >> 9) % 64);
+    let mut v = vec![
+        m::MemoryArea::new(0, 0x9fc00, m::MemoryAreaTypeId::from(1)),
+        m::MemoryArea::new(0x9fc00, 0x400, m::MemoryAreaTypeId::from(2)),
+        m::MemoryArea::new(0xf0000, 0x10000, m::MemoryAreaTypeId::from(2)),
+        m::MemoryArea::new(0x10_0000, ext, m::MemoryAreaTypeId::from(1)),
+        m::MemoryArea::new(0x10_0000 + ext, 0x2_0000, m::MemoryAreaTypeId::from(3)),
+        m::MemoryArea::new(0xfffc_0000, 0x4_0000, m::MemoryAreaTypeId::from(2)),
+    ];
+    v.truncate(2 + (key as usize >> 15) % 5);
+    if v.len() < 4 {
+        v.push(m::MemoryArea::new(0x10_0000, ext, m::MemoryAreaTypeId::from(1)));
+    }
+    v
 }
 
 fn w(key: u32, i: usize) -> u64 {
@@ -84,7 +121,7 @@ fn apply(b: m::Builder, c: &Call) -> (m::Builder, Vec<u8>) {
             (b.bootdev(t), i)
         }
         5 => {
-            let areas: Vec<m::MemoryArea> = (0..n % 6).map(|j| m::MemoryArea::new(w(k, 2 * j), w(k, 2 * j + 1), m::MemoryAreaTypeId::from(w(k, j) as u32 % 7))).collect();
+            let areas: Vec<m::MemoryArea> = if (k >> 5) & 1 == 1 { e820(k) } else { (0..n % 6).map(|j| m::MemoryArea::new(w(k, 2 * j), w(k, 2 * j + 1), m::MemoryAreaTypeId::from(w(k, j) as u32 % 7))).collect() };
             let t = m::MemoryMapTag::new(&areas);
             let i = image(&*t);
             (b.mmap(t), i)
